@@ -220,6 +220,45 @@ func genC03(g *Gen) error {
 		g.P("def %s : String := %s", f.lean, leanStr(c03NoLog(g, fd.Body)))
 	}
 
+	// ---- streaming compaction: recompute the column statistics from the rows, or merge the
+	// records of the inputs? The decision is taken twice (model: OG.C03.PreAgg).
+	g.P("")
+	{
+		const rel = dir + "stream_compact.go"
+		fd, err := g.Func(rel, "StreamIterators.compact")
+		if err != nil {
+			return err
+		}
+		caller := "not-found"
+		ast.Inspect(fd.Body, func(n ast.Node) bool {
+			if call, ok := n.(*ast.CallExpr); ok && c03Callee(call) == "compactColumn" && len(call.Args) >= 3 {
+				caller = g.Src(call.Args[2])
+			}
+			return true
+		})
+		g.P("/-- StreamIterators.compact: the `needCalPreAgg` argument it passes to compactColumn. -/")
+		g.P("def preaggCond_caller : String := %s", leanStr(caller))
+		for _, v := range []string{"Integer", "Float", "String", "Boolean"} {
+			fd, err := g.Func(rel, "StreamIterators.merge"+v+"PreAgg")
+			if err != nil {
+				return err
+			}
+			cond := "not-found"
+			for _, st := range fd.Body.List {
+				ifs, ok := st.(*ast.IfStmt)
+				if !ok {
+					continue
+				}
+				body := g.Src(ifs.Body)
+				if strings.Contains(body, ".marshal(cm.preAgg[:0])") && strings.Contains(body, "return nil") {
+					cond = g.Src(ifs.Cond)
+				}
+			}
+			g.P("/-- merge%sPreAgg: when it stores the builder the caller (re)computed instead of merging the inputs' records. -/", v)
+			g.P("def preaggCond_%s : String := %s", strings.ToLower(v), leanStr(cond))
+		}
+	}
+
 	// ---- column-store compaction: who publishes the new files, and when (model: OG.C03.ColStore)
 	g.P("")
 	renames := []string{"RenameTmpFiles", "RenameTmpFilesWithPKIndex"}
